@@ -236,9 +236,26 @@ func (v *c18Vals) run(seq []int) (key string, viol *c14Viol) {
 		defer func() { recover() }()
 		ls.Close()
 	}()
+	// a second CRL's stores live in the same directory: whatever is done to one store leaves the other's alone
+	ms2, err3 := mf.CreateStore("second", false)
+	ls2, err4 := lf.CreateStore("second", false)
+	if err3 != nil || err4 != nil {
+		panic(fmt.Sprint("create second stores: ", err3, err4))
+	}
+	defer func() {
+		defer func() { recover() }()
+		ls2.Close()
+	}()
+	model2 := newC18Model()
 	model := newC18Model()
 	var names []string
 	check := func(step string) *c14Viol {
+		if om2, ol2, or2 := v.observe(ms2), v.observe(ls2), v.observeModel(model2); om2 != or2 || ol2 != or2 {
+			which := diffField(om2, ol2, or2)
+			if which != "empty:memory" {
+				return &c14Viol{"C18|diverge|second-store-in-the-same-directory|" + which + "|after=" + opClass(step), fmt.Sprintf("after %v the getters of the OTHER store in the same directory disagree in %s:\n  memory: %s\n  disk:   %s\n  model:  %s", names, which, om2, ol2, or2)}
+			}
+		}
 		om, ol, or := v.observe(ms), v.observe(ls), v.observeModel(model)
 		if om != or || ol != or {
 			which := diffField(om, ol, or)
@@ -286,9 +303,31 @@ func (v *c18Vals) run(seq []int) (key string, viol *c14Viol) {
 					}
 					v.ops[pi].Ref(nmodel)
 				}
+				// the other CRL's replacement is staged before this one is swapped in and swapped in after it
+				k2 := (k + 1) % len(v.prefill)
+				nm2, _ := mf.CreateStore("second", true)
+				nl2, err := lf.CreateStore("second", true)
+				if err != nil {
+					panic(err)
+				}
+				nmodel2 := newC18Model()
+				for _, pi := range v.prefill[k2] {
+					if err := v.ops[pi].Do(nm2); err != nil {
+						panic(err)
+					}
+					if err := v.ops[pi].Do(nl2); err != nil {
+						panic(err)
+					}
+					v.ops[pi].Ref(nmodel2)
+				}
 				e1 = ms.Update(nm)
 				e2 = ls.Update(nl)
 				model = nmodel
+				if e1 == nil && e2 == nil {
+					e1 = ms2.Update(nm2)
+					e2 = ls2.Update(nl2)
+					model2 = nmodel2
+				}
 			case op.Special == "reopen":
 				ls.Close()
 				var err error
